@@ -25,3 +25,6 @@ REPLAY.update(c05.REPLAY)
 REPLAY.update(c12.REPLAY)
 from suites import thorough as _th, progenum as _pg
 GROUPS["thorough:enum-function-signatures"] = _th.only_thorough(_pg.g_f3)
+
+# bounded stand-ins for undecided obligations (olvc/oblig.py::main_check)
+STANDINS = {"*": [dict(kind="sig")]}
